@@ -6,7 +6,7 @@ CONSTANTS
   MaxDir = 3
   Sizes <- SizesAll
   Dev <- NoDev
-  EnvOn <- EnvNone
+  EnvOn <- EnvDisc
   MaxHist = 1000
 INVARIANT DumpInv
 CHECK_DEADLOCK FALSE
